@@ -6,6 +6,7 @@
   `[7, i)` and `[i+1, len)`; `strSlice` panics off a char boundary like `&s[a..b]`.
 -/
 import Proofs.Topic
+import Proofs.TopicOrd
 
 namespace C17
 open Mqtt Mqtt.Topic
@@ -85,7 +86,29 @@ theorem eq_iff_text_eq (d1 d2 : Bool) (cs1 cs2 : List Char) (i1 i2 : Nat)
     exact encode_injective cs1 cs2 h
   · rintro rfl; rfl
 
+/-- `Ord`/`PartialOrd`/`PartialEq` of constructed filters (`TopicFilter.cmp`, the model of the three
+hand-written impls, tied by the `tfcmp` stream): the comparison is the byte-wise comparison of the
+texts — in particular it never looks at the share name and the filter separately — it is `eq` exactly
+for equal filters, antisymmetric and transitive. -/
+theorem cmp_is_text_order (a b : TopicFilter) : a.cmp b = lexCmp a.text b.text := rfl
+
+theorem cmp_eq_iff (d1 d2 : Bool) (cs1 cs2 : List Char) (i1 i2 : Nat)
+    (h1 : filterIsInvalid d1 cs1 = .valid i1) (h2 : filterIsInvalid d2 cs2 = .valid i2) :
+    (TopicFilter.cmp ⟨Utf8.encode cs1, i1⟩ ⟨Utf8.encode cs2, i2⟩ = .eq) ↔
+      ((⟨Utf8.encode cs1, i1⟩ : TopicFilter) = ⟨Utf8.encode cs2, i2⟩) := by
+  rw [eq_iff_text_eq d1 d2 cs1 cs2 i1 i2 h1 h2]
+  simp only [TopicFilter.cmp, lexCmp_eq_iff]
+  exact ⟨fun h => encode_injective cs1 cs2 h, fun h => by rw [h]⟩
+
+theorem cmp_swap (a b : TopicFilter) : b.cmp a = (a.cmp b).swap := lexCmp_swap a.text b.text
+
+theorem cmp_lt_trans (a b c : TopicFilter) (h1 : a.cmp b = .lt) (h2 : b.cmp c = .lt) :
+    a.cmp c = .lt := lexCmp_lt_trans _ _ _ h1 h2
+
 -- non-vacuity
 example : filterIsInvalid true "$share/你好/+".toList = .valid 13 := by decide
+-- the pair that separates text order from (share name, filter) order: '-' < '/'
+-- ("s/j" vs "s-2" as bytes: a share name that is a prefix of the other, continued by a character below '/')
+example : lexCmp [0x73, 0x2f, 0x6a] [0x73, 0x2d, 0x32] = .gt := by decide
 
 end C17
